@@ -4,7 +4,50 @@ import "hash/fnv"
 
 // Rand is a splitmix64 PRNG. All workload randomness comes from it; it is
 // keyed by (VERIF_SEED, property, stream name) and never by the clock.
-type Rand struct{ s uint64 }
+//
+// A Rand may be "steered": its values are then taken from a byte string
+// (little-endian, as few bytes as the requested range needs) until that is
+// used up, after which the splitmix stream continues. The thorough tier uses
+// this to let the coverage-guided fuzzer drive the structured generators.
+type Rand struct {
+	s   uint64
+	src *steerSrc
+}
+
+type steerSrc struct {
+	b   []byte
+	pos int
+}
+
+// NewSteered returns a Rand whose stream is dictated by data.
+func NewSteered(data []byte, names ...string) *Rand {
+	r := NewRand(uint64(len(data)), names...)
+	h := fnv.New64a()
+	h.Write(data)
+	r.s ^= h.Sum64()
+	r.src = &steerSrc{b: data}
+	return r
+}
+
+// SteerRest returns the unused steering bytes (nil for an unsteered Rand).
+func (r *Rand) SteerRest() []byte {
+	if r.src == nil || r.src.pos >= len(r.src.b) {
+		return nil
+	}
+	return r.src.b[r.src.pos:]
+}
+
+func (r *Rand) take(n int) (uint64, bool) {
+	if r.src == nil || r.src.pos+n > len(r.src.b) {
+		return 0, false
+	}
+	var v uint64
+	for i := 0; i < n; i++ {
+		v |= uint64(r.src.b[r.src.pos+i]) << (8 * i)
+	}
+	r.src.pos += n
+	return v, true
+}
 
 func NewRand(seed uint64, names ...string) *Rand {
 	h := fnv.New64a()
@@ -23,6 +66,11 @@ func NewRand(seed uint64, names ...string) *Rand {
 }
 
 func (r *Rand) U64() uint64 {
+	if r.src != nil {
+		if v, ok := r.take(8); ok {
+			return v
+		}
+	}
 	r.s += 0x9e3779b97f4a7c15
 	z := r.s
 	z = (z ^ (z >> 30)) * 0xbf58476d1ce4e5b9
@@ -35,6 +83,20 @@ func (r *Rand) Intn(n int) int {
 	if n <= 0 {
 		return 0
 	}
+	if r.src != nil {
+		k := 8
+		switch {
+		case n <= 1<<8:
+			k = 1
+		case n <= 1<<16:
+			k = 2
+		case n <= 1<<32:
+			k = 4
+		}
+		if v, ok := r.take(k); ok {
+			return int(v % uint64(n))
+		}
+	}
 	return int(r.U64() % uint64(n))
 }
 
@@ -46,7 +108,12 @@ func (r *Rand) Range(lo, hi int) int {
 	return lo + r.Intn(hi-lo+1)
 }
 
-func (r *Rand) Bool() bool { return r.U64()&1 == 1 }
+func (r *Rand) Bool() bool {
+	if r.src != nil {
+		return r.Intn(2) == 1
+	}
+	return r.U64()&1 == 1
+}
 
 // Chance is true with probability num/den.
 func (r *Rand) Chance(num, den int) bool { return r.Intn(den) < num }
@@ -90,6 +157,11 @@ func (r *Rand) Perm(n int) []int {
 
 // Fork derives an independent stream.
 func (r *Rand) Fork(name string) *Rand {
+	if r.src != nil {
+		f := NewRand(r.s, name)
+		f.src = r.src
+		return f
+	}
 	return NewRand(r.U64(), name)
 }
 
